@@ -46,6 +46,20 @@ def gen_prefix_case(rng):
     return c
 
 
+def gen_working_col_case(rng):
+    """several rules over the same source with the very same reference set, one of the columns named like a working column of the
+    materializer (triple, graph, subject ...): whatever the engine does with such a column, it does it alike under every partitioning mode"""
+    def tm(k, v, ck='iri', tt=''):
+        return {'k': k, 'v': v, 'ck': ck, 'tt': tt}
+    EX = mapcase.EX
+    col = rng.choice(['triple', 'graph', 'triple', 'graph', 'subject', 'object', 'predicate'])
+    rows = [[str(i + 1), rng.choice(['a', 'b', 'c d'])] for i in range(rng.choice([1, 2, 3]))]
+    objs = [tm('ref', col), tm('templ', EX + 'o/{' + col + '}'), tm('templ', 'v {' + col + '}', 'iri', 'lit')]
+    poms = [{'preds': [tm('const', EX + 'p/q%d' % j)], 'objs': [{'m': rng.choice(objs), 'lang': None, 'dt': None, 'joins': []}], 'graphs': []} for j in range(rng.choice([2, 3]))]
+    return {'cfg': {'nquads': rng.random() < 0.5, 'mode': 'NO'}, 'sources': [{'key': 'S0', 'kind': 'csv', 'cols': ['id', col], 'rows': rows}],
+            'doc': [{'id': EX + 'tm/T', 'src': 'S0', 'nonasserted': False, 'subj': tm('templ', EX + 'r/{id}'), 'sjoins': [], 'classes': [], 'sgraphs': [], 'poms': poms}]}
+
+
 def gen_graph_only_null_case(rng):
     """data-dependent graph maps whose columns are used by nothing else, with NULLs in them, in both output formats: a row without a graph value
     gives no statement under every partitioning mode (also when the output format does not show the graph)"""
@@ -72,6 +86,7 @@ def run(ctx, res):
     cases = corpus + [gen_prefix_case(ctx.rng) for _ in range(n)] + [mapcase.gen_core_case(ctx.rng, hard=True) for _ in range(n // 2)]
     cases += [mapcase.gen_shard_case(ctx.rng) for _ in range(ctx.scale(8, 80))]        # same-named tables of two databases, one section each
     cases += [gen_graph_only_null_case(ctx.rng) for _ in range(ctx.scale(10, 100))]
+    cases += [gen_working_col_case(ctx.rng) for _ in range(ctx.scale(10, 100))]
     batch = family.Batch(ctx)
     per_mode = {m: batch.run(cases, cfg_override={'mode': m}, want_spec=False) for m in MODES}
     for i, case in enumerate(cases):
